@@ -324,9 +324,18 @@ Definition itgt_eqb (a b : itgt) : bool :=
   end.
 
 Definition fbound (al : falias) : name := match snd al with Some a => a | None => fst al end.
-Definition ibound (al : ialias) : name := match ias al with Some a => a | None => ihead al end.
+(* `import m as m` is the same statement as `import m` (the asname is an identifier, so m has no dot
+   and is its own head): bound name and target are read off the normalised alias. *)
+Definition ibound (al : ialias) : name :=
+  match ias al with
+  | Some a => if a =? imod al then ihead al else a
+  | None => ihead al
+  end.
 Definition itarget (al : ialias) : itgt :=
-  match ias al with Some _ => IMod (imod al) | None => IHead (ihead al) end.
+  match ias al with
+  | Some a => if a =? imod al then IHead (ihead al) else IMod (imod al)
+  | None => IHead (ihead al)
+  end.
 
 (* the (local name, target) pairs a statement creates, in execution order *)
 Definition stmt_binds (s : stmt) : list (name * itgt) :=
